@@ -1,5 +1,7 @@
 import DuneVerif.Model.C10
-/-! line-protocol driver for C10:  `<k> <op> <hexA> [<hexB>|<dec>]`  -/
+import DuneVerif.Model.C10Prog
+/-! line-protocol driver for C10:  `<k> <op> <hexA> [<hexB>|<dec>]`
+    and histories  `<k> prog <hexA> <hexB> : stmt;stmt;…`  (statements of Model/C10Prog.lean) -/
 open DV DV.C10 DV.C10.Gen
 
 def showV (a : List Nat) : String := String.ofList (print a)
@@ -8,7 +10,73 @@ def showR : Res → String
   | .ok v => showV v
   | .mathError => "ERR:Math"
 
+
+/-- quotient above which a program's `/=`/`%=` is not executed (the real algorithm and the model are O(quotient));
+    the harness applies the same rule with its GMP shadow -/
+def quotCap : Nat := 2000
+
+def parseReg? : String → Option Reg
+  | "a" => some .a
+  | "b" => some .b
+  | _ => none
+
+def parseBin? : String → Option BinOp
+  | "add" => some .add | "sub" => some .sub | "mul" => some .mul | "div" => some .div | "mod" => some .mod
+  | "and" => some .band | "or" => some .bor | "xor" => some .bxor
+  | _ => none
+
+def parseStmt? (s : String) : Option POp :=
+  match tokens s with
+  | ["incr", d] => (parseReg? d).map .incr
+  | ["not", d] => (parseReg? d).map .bnot
+  | ["copy", d, s] => do some (.copy (← parseReg? d) (← parseReg? s))
+  | ["shl", d, n] => do some (.shl (← parseReg? d) (← n.toNat?))
+  | ["shr", d, n] => do some (.shr (← parseReg? d) (← n.toNat?))
+  | [o, d, x] =>
+    if o.endsWith "u" then do
+      some (.binU (← parseBin? (String.ofList o.toList.dropLast)) (← parseReg? d) (← x.toNat?))
+    else do
+      some (.bin (← parseBin? o) (← parseReg? d) (← parseReg? x))
+  | _ => none
+
+/-- does this statement run the subtraction loop more than `quotCap` times? -/
+def tooSlow (n : Nat) (r : Regs) : POp → Bool
+  | .bin o d s => (o == .div || o == .mod) && val (r.get s) != 0 && val (r.get d) / val (r.get s) > quotCap
+  | .binU o d y =>
+    (o == .div || o == .mod) && val (assign n y) != 0 && val (r.get d) / val (assign n y) > quotCap
+  | _ => false
+
+/-- `run` of the model, statement by statement, stopping with `SKIP` at a too slow division -/
+def runProg (k : Nat) : Regs → List POp → List String → String
+  | r, [], acc => ";".intercalate acc.reverse ++ " => " ++ showV r.a ++ " " ++ showV r.b
+  | r, op :: ops, acc =>
+    if tooSlow (ndigits k) r op then ";".intercalate ("SKIP" :: acc).reverse
+    else match step k r op with
+      | none => "bad-op"
+      | some (r', o) => runProg k r' ops (showR o :: acc)
+
+def parseTy? : String → Option IntTy
+  | "i8" => some ⟨true, 8⟩ | "i16" => some ⟨true, 16⟩ | "i32" => some ⟨true, 32⟩ | "i64" => some ⟨true, 64⟩
+  | "u8" => some ⟨false, 8⟩ | "u16" => some ⟨false, 16⟩ | "u32" => some ⟨false, 32⟩ | "u64" => some ⟨false, 64⟩
+  | "bool" => some ⟨false, 1⟩
+  | _ => none
+
+def handleProg (line : String) : Option String :=
+  match line.splitOn " : " with
+  | [head, body] =>
+    match tokens head with
+    | [ks, "prog", a, b] => do
+      let k ← ks.toNat?
+      let n := ndigits k
+      let a ← parseHex? a
+      let b ← parseHex? b
+      let stmts ← (body.splitOn ";").mapM parseStmt?
+      some (runProg k ⟨ofNat n a, ofNat n b⟩ stmts [])
+    | _ => none
+  | _ => none
+
 def handle (line : String) : String :=
+  if ((tokens line).drop 1).head? == some "prog" then (handleProg line).getD "bad-op" else
   match tokens line with
   | ks :: op :: rest =>
     match ks.toNat? with
@@ -89,9 +157,23 @@ def handle (line : String) : String :=
         | _ => "bad-op"
       | "touint" => un fun a => toString (touint a)
       | "todouble" => un fun a => toString (todoubleN a)
-      | "print" => un showV
+      | "print" => un fun a => String.ofList (printCanon a)
       | "max" => showV (maxVal n)
-      | "digits" => toString (bits * n)
+      | "digits" => toString (limitsDigits k)
+      | "limits" => s!"digits={limitsDigits k} radix={limitsRadix} signed={showB limitsIsSigned} integer={showB limitsIsInteger} exact={showB limitsIsExact} bounded={showB limitsIsBounded} modulo={showB limitsIsModulo}"
+      | "default" => match rest with
+        | [] => showV (assign n 0)
+        | _ => "bad-op"
+      | "ctor" => match rest with
+        | [ty, x] => match parseTy? ty, x.toInt? with
+          | some t, some y =>
+            if t.holds y then
+              match construct n t y with
+              | .ok v => showV v
+              | .negative => "ERR:Negative"
+            else "bad-op"
+          | _, _ => "bad-op"
+        | _ => "bad-op"
       | _ => "bad-op"
   | _ => "bad-op"
 
